@@ -410,6 +410,22 @@ def run_case(case, rec, mon=None):
                 y = s.apply(x, axis, in_place) if rng.random() < 0.5 else s.apply(x, axis=axis, in_place=in_place)
             except Exception:
                 y = None
+            if j % 3 == 0 and y is not None:
+                # the same object on a tensor with one more (leading) dimension: a negative axis means the same axis from the end, and the
+                # documented public attributes read what they were set to
+                before_attrs = (s.num_vectors, s.time_axis)
+                x5 = np.array(np.broadcast_to(np.asarray(x), (2,) + tuple(shape)))
+                x5.setflags(write=False)
+                ta, ax = time_axis, axis
+                if ta < 0 and ax < 0:
+                    try:
+                        s.apply(x5, ax)
+                        rec.count("stack_objects_applied_to_tensors_of_another_rank")
+                    except Exception:
+                        pass
+                if (s.num_vectors, s.time_axis) != before_attrs:
+                    mon.v("Stack.apply changed the object's public attributes from %r to %r" % (before_attrs, (s.num_vectors, s.time_axis)), check="attributes", op="stack",
+                          shape=shape, dtype=dtype, axis=axis, time_axis=time_axis, num_vectors=n, pad_mode=str(mode))
             if rng.random() < 0.4:
                 rec.count("stack_objects_called_repeatedly")
                 for dt2 in [str(t) for t in rng.permutation(["float64", "float32", "int32", dtype])][:2]:
